@@ -466,7 +466,7 @@ class Interp:
             return l.v == r.v
         if isinstance(l, EnumV) and isinstance(r, EnumV):
             return l.dotted == r.dotted
-        if isinstance(l, ClsRef) and isinstance(r, ClsRef):
+        if isinstance(l, (ClsRef, Ext)) and isinstance(r, (ClsRef, Ext)):
             return l.dotted == r.dotted
         if isinstance(l, (EnumV, ClsRef)) and isinstance(r, Const) or isinstance(r, (EnumV, ClsRef)) and isinstance(l, Const):
             return False
